@@ -181,6 +181,8 @@ pub fn base_output(r: &mut Rng, kind: &str) -> Output {
     match kind {
         "explicit" => {}
         "commit" => { o.amount = None; o.asset = None; o.amount_comm = Some(pools::commitment(r)); o.asset_comm = Some(pools::generator(r)); }
+        "mixed-a" => { o.asset = None; o.asset_comm = Some(pools::generator(r)); }
+        "mixed-v" => { o.amount = None; o.amount_comm = Some(pools::commitment(r)); }
         "marked" => { o.blinding_key = Some(btc_pk(r)); o.blinder_index = Some(0); }
         "blinded" => {
             o.blinding_key = Some(btc_pk(r));
